@@ -199,6 +199,14 @@ def r2(run: Run, rt):
             if isinstance(q, ast.ExceptHandler) and q.type is not None and 'KeyError' in ast.unparse(q.type):
                 in_handler = True
             q = parents.get(q)
+        # try: return self._arguments[uid] / except KeyError: pass  ...  <call>: the call is reached only through the handler
+        from ..paths import executed_before
+        from ..runtime import may_complete_normally
+        for st in executed_before(fn, call, parents):
+            if isinstance(st, ast.Try) and not may_complete_normally(st.body) and not st.orelse and \
+                    f'self._arguments[{uid}]' in ast.unparse(ast.Module(body=st.body, type_ignores=[])) and st.handlers and \
+                    all(h.type is not None and 'KeyError' in ast.unparse(h.type) for h in st.handlers):
+                in_handler = True
         run.check((miss or in_handler) and not eager, 'C04.R2', f'_cell_preprocessor[{cp.label}]/formula-call',
                   'formula-evaluated-eagerly' if eager else 'formula-not-guarded',
                   f'the generated member is called {"as an eagerly evaluated default of dict.get" if eager else "on paths where the cell is overridden"}: '
